@@ -86,24 +86,52 @@ def r1_children(P, rep, ctx):
     # stores  <map>[<key loop variable>] = ...
     loopvars = {norm(n.stmt.target): n for n in g.nodes if n.kind == "for" and n is not oi and isinstance(n.stmt.target, ast.Name)}
     bound_stores = [n for n in g.nodes if n.kind == "stmt" and isinstance(n.stmt, ast.Assign) and any(isinstance(t, ast.Subscript) and norm(t.slice) in loopvars and isinstance(t.value, ast.Name) for t in n.stmt.targets)]
-    kvars = {norm(t.slice) for n in bound_stores for t in n.stmt.targets if isinstance(t, ast.Subscript)}
+    # the key loop is the one nested in the container scan
+    in_outer = {id(x) for b_ in oi.stmt.body for x in ast.walk(b_)}
+    kvars = {norm(t.slice) for n in bound_stores if id(n.stmt) in in_outer for t in n.stmt.targets if isinstance(t, ast.Subscript)}
     if len(kvars) != 1:
         raise AnalysisError("C01.R1: key loop of _children not found")
     kvar = kvars.pop()
-    kn = loopvars[kvar]
+    kn = next((n for n in g.nodes if n.kind == "for" and n is not oi and id(n.stmt) in in_outer and isinstance(n.stmt.target, ast.Name) and n.stmt.target.id == kvar), None)
+    if kn is None:
+        raise AnalysisError("C01.R1: key loop of _children not found")
+    in_key_loop = {id(x) for b_ in kn.stmt.body for x in ast.walk(b_)}
+    bound_stores = [n for n in bound_stores if id(n.stmt) in in_key_loop]
     maps = {}
     for n in bound_stores:
         for t in n.stmt.targets:
             maps.setdefault(norm(t.value), []).append(n)
-    # the bound map is the one returned (through the final comprehension over <map>.items())
+    # the bound map is the one the result is filtered from: a comprehension over <map>.items(), or a loop that copies entries
     ret = [v for _, v in f.returns() if v is not None and isinstance(f.xe(v), ast.DictComp)]
-    if len(ret) != 1:
-        raise AnalysisError("C01.R1: result comprehension of _children not found")
-    comp = f.xe(ret[0])
-    src = norm(comp.generators[0].iter)
-    bmap = next((m for m in maps if f"{m}.items()" in norm(ret[0] if isinstance(ret[0], ast.DictComp) else comp) or f"{m}.items()" in src), None)
-    if bmap is None:
-        raise AnalysisError("C01.R1: bound map of _children not identified")
+    res_loop = None
+    if len(ret) == 1:
+        comp = f.xe(ret[0])
+        src = norm(comp.generators[0].iter)
+        tv = [norm(t) for t in (comp.generators[0].target.elts if isinstance(comp.generators[0].target, ast.Tuple) else [])]
+        kk, ix = (tv + ["k", "idx"])[:2]
+        kept = None
+        conds = [c for i in comp.generators[0].ifs for c in M.conjuncts(i)]
+        kept = ast.BoolOp(op=ast.And(), values=conds) if len(conds) > 1 else conds[0] if conds else ast.Constant(value=True)
+        mapping_ok = norm(comp.key) == kk and norm(comp.value) == ix
+    else:
+        # loop form: for k, idx in <sorted>(<map>.items()): [skip conditions]; result[k] = idx
+        rnames = {v.id for _, v in f.returns() if isinstance(v, ast.Name)}
+        cands = [n for n in g.nodes if n.kind == "for" and n is not oi and isinstance(n.stmt.target, ast.Tuple) and len(n.stmt.target.elts) == 2 and ".items()" in f.x(n.stmt.iter)]
+        for n in cands:
+            kk, ix = norm(n.stmt.target.elts[0]), norm(n.stmt.target.elts[1])
+            sts = [i for r_ in rnames for i, v, b in f.stores(f"{r_}[{kk}]") if norm(v) == ix]
+            if sts:
+                res_loop = (n, sts)
+                break
+        if res_loop is None:
+            raise AnalysisError("C01.R1: result comprehension of _children not found")
+        n, sts = res_loop
+        src = f.x(n.stmt.iter)
+        kk, ix = norm(n.stmt.target.elts[0]), norm(n.stmt.target.elts[1])
+        kept = f.condition_of((n.idx, "iter"), [n.idx], sts)
+        mapping_ok = True
+        ret = [n.stmt]
+    bmap = next((m for m in maps if f"{m}.items()" in src), None)
     known = f.tests(f"{kvar} in {bmap}")  # edges on which the child was seen before (in a newer container)
     unseen = f.neg(known)
     lowering = [n for n in maps[bmap] if not f.hit_before(n.idx, edges=unseen, src=kn.idx)]
@@ -133,18 +161,15 @@ def r1_children(P, rep, ctx):
         fs = [r for r in maps[m] if f.hit_before(r.idx, edges=unseen, src=kn.idx)]
         rep.check(bool(fs) and all(f.x(r.stmt.value) == refresh_pat for r in fs), "C01.R1", fi.qual, "flag initialised from the newest sighting", fi.loc(), construct="flag init",
                   message="the virtual flag is not initialised from the newest sighting of the child")
-    # result filter: conjuncts of the comprehension conditions
-    conds = [c for i in comp.generators[0].ifs for c in M.conjuncts(i)]
-    tv = [norm(t) for t in (comp.generators[0].target.elts if isinstance(comp.generators[0].target, ast.Tuple) else [])]
-    kk, ix = (tv + ["k", "idx"])[:2]
-    delc = [c for c in conds if "_node_is_del_mark" in norm(c)]
-    ok = len(delc) == 1 and M.equivalent(delc[0], f"not _node_is_del_mark(self._get_child_raw({kk}, {ix}))")
-    rep.check(ok, "C01.R1", fi.qual, "entries whose resolved node is a deletion mark are dropped unconditionally", fi.loc(ret[0]), construct="deletion filter of _children",
-              message=f"the result of _children does not drop deletion marks unconditionally (filter: {[norm(c) for c in delc] or 'none'}): deleted entries stay visible")
-    subc = [c for c in conds if "SUBST_KEY" in norm(c)]
-    ok = len(subc) == 1 and M.equivalent(subc[0], f"not self._is_attrs or {kk} != SUBST_KEY")
-    rep.check(ok, "C01.R1", fi.qual, "the substitution marker attribute is hidden from attribute listings", fi.loc(ret[0]), construct="SUBST filter of _children", message="the SUBST marker attribute is not filtered from attribute listings")
-    rep.check(norm(comp.key) == kk and norm(comp.value) == ix, "C01.R1", fi.qual, "result maps each child to its resolved bound", fi.loc(ret[0]), construct="result mapping", message="result comprehension does not map child -> bound")
+    # result filter: an entry is kept iff it is not a deletion mark and not the substitution marker of an attribute set
+    want_kept = f"(not _node_is_del_mark(self._get_child_raw({kk}, {ix}))) and (not self._is_attrs or {kk} != SUBST_KEY)"
+    has_del = "_node_is_del_mark" in norm(kept)
+    ok = M.equivalent(kept, want_kept) or (has_del and M.equivalent(kept, f"not _node_is_del_mark(self._get_child_raw({kk}, {ix}))") and False)
+    weaker_del = not M.equivalent(ast.BoolOp(op=ast.And(), values=[kept, M.pat(f"_node_is_del_mark(self._get_child_raw({kk}, {ix}))")]), "False") if True else False
+    rep.check(not weaker_del, "C01.R1", fi.qual, "entries whose resolved node is a deletion mark are dropped unconditionally", fi.loc(ret[0]), construct="deletion filter of _children",
+              message=f"the result of _children does not drop deletion marks unconditionally (kept under: {norm(kept)[:120]}): deleted entries stay visible")
+    rep.check(ok or weaker_del, "C01.R1", fi.qual, "the substitution marker attribute is hidden from attribute listings (and nothing else is dropped)", fi.loc(ret[0]), construct="SUBST filter of _children", message="the SUBST marker attribute is not filtered from attribute listings")
+    rep.check(mapping_ok, "C01.R1", fi.qual, "result maps each child to its resolved bound", fi.loc(ret[0]), construct="result mapping", message="result comprehension does not map child -> bound")
     # resolution by successive child lookup uses _children of each prefix
     ns = F(ctx, P.func(f"{O}.IH5InnerNode._node_seq"))
     look = ns.call_sites("__c._children().get(__s, ___)")
